@@ -129,6 +129,7 @@ SPEC_M.append(("ledger.protocol_v1", "HSM1ProtocolLedger", ["__internal_handle_r
 SPEC_M.append(("sgx.hsm2dongle", "HSM2DongleSGX", ["echo", "unlock", "new_pin", "get_retries", "onboard"]))
 SPEC_M.append(("ledger.hsm2dongle_cmds.powhsm_attestation", "PowHsmAttestation", ["send", "run"]))
 SPEC_M.append(("ledger.hsm2dongle", "HSM2Dongle", ["get_ui_attestation", "get_powhsm_attestation"]))
+SPEC_M.append(("ledger.hsm2dongle", "HSM2Dongle", ["_send_command"]))
 # attributes of self that hold another translated object: (class, attribute) -> (module, class)
 ATTR_CLASS = {("HSM2SignerHeartbeat", "dongle"): ("ledger.hsm2dongle", "HSM2Dongle"),
               ("PowHsmAttestation", "dongle"): ("ledger.hsm2dongle", "HSM2Dongle"),
@@ -166,6 +167,8 @@ EXC = {"Exception": "OtherExc", "ValueError": "ValueError", "TypeError": "TypeEr
 TYPES = {"dict": "TDict", "str": "TStr", "int": "TInt", "list": "TList", "bytes": "TBytes",
          "bool": "TBool", "float": "TFloat"}
 LOGGER_NAMES = {"logger", "_logger", "LOGGER"}
+# classes of exception objects the transport hands over, compared by exact type in the source
+OBJ_CLASSES = {"CommException", "BaseException", "OSError"}
 EXTRA_TYPES = {"op_": "pv -> pv -> pr pv", "int_oracle_": "str -> Z -> option Z", "fuel_": "nat",
                "call_method_": "string -> pv -> list pv -> pr pv", "initialize_device_": "pm pv"}
 EXTRA_ORDER = ["fuel_", "int_oracle_", "call_method_", "initialize_device_", "op_"]
@@ -467,6 +470,9 @@ class FuncTr:
             return self.stmts(rest, k, ret)
         if isinstance(st, ast.Raise) and self.M and isinstance(st.exc, ast.Name) and st.exc.id in self.excvars:
             return "PRaiseX e_%s" % ident(st.exc.id)
+        if isinstance(st, ast.Raise) and self.M and isinstance(st.exc, ast.Call) and isinstance(st.exc.func, ast.Name) \
+                and st.exc.func.id == "HSM2DongleErrorResult" and len(st.exc.args) == 1 and not st.exc.keywords:
+            return self.binds(list(st.exc.args), lambda a: "m_raise_error_result %s" % a[0])
         if isinstance(st, ast.Raise):
             if isinstance(st.exc, ast.Call) and any(self.fmt_raises(a) for a in st.exc.args):
                 return "PRaise TypeError"
@@ -613,7 +619,47 @@ class FuncTr:
                 self.expr(value), t, n, coq_string(tgt.attr), t, n, self.stmts(rest, k, ret))
         need(False, "assignment target", st)
 
+    def is_exchange_call(self, e):
+        return isinstance(e, ast.Call) and isinstance(e.func, ast.Attribute) and e.func.attr == "exchange" \
+            and isinstance(e.func.value, ast.Attribute) and e.func.value.attr == "dongle" \
+            and isinstance(e.func.value.value, ast.Name) and e.func.value.value.id == self.selfname
+
+    def transport_try(self, st, rest, k, ret):
+        """try: ...; result = self.dongle.exchange(apdu, timeout=...); ...  except (..., BaseException) as e: <body>
+        The transport is a primitive (m_exchange) that yields the data or the exception OBJECT it raises; the
+        handler's body is translated like any other code, with `e` an ordinary variable holding that object.
+        The other statements of the try body may not raise (struct.pack is a primitive that leaves the subset
+        instead; log arguments are evaluated)."""
+        need(len(st.handlers) == 1 and not st.orelse and not st.finalbody, "transport try shape", st)
+        h = st.handlers[0]
+        types = [h.type] if not isinstance(h.type, ast.Tuple) else list(h.type.elts)
+        need(h.name and any(isinstance(t, ast.Name) and t.id == "BaseException" for t in types),
+             "transport try must catch BaseException by name", st)
+        idx = [i for i, b in enumerate(st.body) if isinstance(b, ast.Assign) and self.is_exchange_call(b.value)]
+        need(len(idx) == 1 and len(st.body[idx[0]].targets) == 1 and isinstance(st.body[idx[0]].targets[0], ast.Name),
+             "exactly one `x = self.dongle.exchange(...)` in the try body", st)
+        i = idx[0]
+        call = st.body[i].value
+        need(len(call.args) == 1 and all(k_.arg == "timeout" for k_ in call.keywords), "exchange arguments", call)
+        for b in st.body[:i] + st.body[i + 1:]:
+            need(isinstance(b, ast.Expr) and self.is_log_call(b.value) or
+                 (isinstance(b, ast.Assign) and isinstance(b.value, ast.Call) and isinstance(b.value.func, ast.Attribute)
+                  and isinstance(b.value.func.value, ast.Name) and b.value.func.value.id == "struct"
+                  and b.value.func.attr == "pack"), "statement that may raise inside the transport try", b)
+        res = self.v(st.body[i].targets[0].id)
+        ev = self.v(h.name)
+        self.local_names.add(h.name)
+        after = self.stmts(st.body[i + 1:] + rest, k, ret)
+        hb = self.stmts(h.body, "PStuck", ret)
+        need(always_returns(h.body), "transport handler that falls through", h)
+        mid = self.binds([call.args[0]], lambda a: (
+            "pbind (m_exchange %s) (fun x_ => match x_ with\n   | VList [VInt 0%%Z; %s] =>\n%s\n   | VList [VInt 1%%Z; %s] =>\n%s\n"
+            "   | _ => PStuck end)" % (a[0], res, after, ev, hb)))
+        return self.stmts(st.body[:i], mid, ret)
+
     def try_(self, st, rest, k, ret):
+        if self.M and any(isinstance(b, ast.Assign) and self.is_exchange_call(b.value) for b in st.body):
+            return self.transport_try(st, rest, k, ret)
         need((self.M or not st.finalbody) and not st.orelse and (st.handlers or st.finalbody), "try shape", st)
         kk = "@T%d@" % id(st)
         try:
@@ -1109,6 +1155,10 @@ class FuncTr:
                 t = "true" if isinstance(op, ast.Is) else "false"
                 f = "false" if isinstance(op, ast.Is) else "true"
                 return self.binds([a], lambda n: "POk (VBool (match %s with VNone => %s | _ => %s end))" % (n[0], t, f))
+            if isinstance(op, (ast.Eq, ast.NotEq)) and isinstance(a, ast.Call) and isinstance(a.func, ast.Name) \
+                    and a.func.id == "type" and len(a.args) == 1 and isinstance(b, ast.Name) and b.id in OBJ_CLASSES:
+                neg = "negb " if isinstance(op, ast.NotEq) else ""
+                return self.binds([a.args[0]], lambda n: "POk (VBool (%s(obj_class_is %s %s)))" % (neg, n[0], coq_string(b.id)))
             fn = {ast.In: "py_in", ast.NotIn: "py_not_in", ast.Eq: "py_eq", ast.NotEq: "py_ne",
                   ast.Lt: "py_cmp CLt", ast.LtE: "py_cmp CLe", ast.Gt: "py_cmp CGt", ast.GtE: "py_cmp CGe"}.get(type(op))
             need(fn, "comparison operator", e)
@@ -1534,6 +1584,11 @@ class FuncTr:
             if n == "sorted" and len(e.args) == 1 and len(e.keywords) == 1 and e.keywords[0].arg == "key" and self.M:
                 fn = self.callable_text(e.keywords[0].value, e)
                 return self.binds(e.args, lambda a: "py_sorted_by (%s) %s" % (fn, a[0]))
+            if n == "isinstance" and len(e.args) == 2 and not e.keywords and isinstance(e.args[1], ast.Name):
+                cn = e.args[1].id
+                obj = getattr(self.m.mod, cn, None)
+                need(isinstance(obj, type) and not obj.__subclasses__(), "isinstance against a class with subclasses", e)
+                return self.binds([e.args[0]], lambda a: "POk (VBool (obj_class_is %s %s))" % (a[0], coq_string(cn)))
             if n == "bool" and len(e.args) == 1 and not e.keywords:
                 return self.binds(e.args, lambda a: "POk (VBool (py_truth %s))" % a[0])
             if n == "range" and len(e.args) == 1 and not e.keywords:
@@ -1588,6 +1643,14 @@ class FuncTr:
             if n in self.m.classes:
                 return self.construct(getattr(self.m.mod, n), e)
             need(False, "call of %s" % n, e)
+        if isinstance(f, ast.Attribute) and isinstance(f.value, ast.Name) and f.value.id == "struct" and f.attr == "pack" \
+                and self.M and len(e.args) == 4 and not e.keywords:
+            fm = e.args[0]
+            need(isinstance(fm, ast.BinOp) and isinstance(fm.op, ast.Mod) and isinstance(fm.left, ast.Constant)
+                 and fm.left.value == "BB%ds" and isinstance(fm.right, ast.Call) and isinstance(fm.right.func, ast.Name)
+                 and fm.right.func.id == "len" and len(fm.right.args) == 1
+                 and ast.dump(fm.right.args[0]) == ast.dump(e.args[3]), "struct.pack format", e)
+            return self.binds(e.args[1:], lambda a: "py_struct_pack_BBs %s %s %s" % (a[0], a[1], a[2]))
         if isinstance(f, ast.Attribute):
             # self.method(...)
             if isinstance(f.value, ast.Name) and f.value.id == self.selfname and self.cls is not None:
